@@ -107,6 +107,9 @@ Definition esc_rst : list byte := [27; 91; 48; 109]%N.
 (* one emission: handler index, stream (0 = file / stdout, 1 = stderr), cells *)
 Definition emission := (nat * nat * list cell)%type.
 
+Record aseq := { aq_lg : logger; aq_held : option lmsg; aq_pending : list lmsg }.
+Inductive aop := AOLog (hold : bool) (level : Z) (id : nat) (text : list byte) | AOSet (i : nat) (lv : Z) | AORelease.
+
 Section WithFormat.
   (* the formatter oracle: formatter kind (0 simple, 1 complicated) -> message -> the line
      snprintf would produce without a size limit *)
@@ -139,9 +142,16 @@ Section WithFormat.
   Definition logger_write (lg : logger) (m : lmsg) : list emission :=
     logger_write_from 0 (lg_handlers lg) m.
 
-  (* muggle_sync_logger_log: if (logger->lowest_log_level > level) return; *)
+  (* the early-out of muggle_sync_logger_log / muggle_async_logger_log.
+     As first found:  if (logger->lowest_log_level > level) return;   (a snapshot taken in add_handler)
+     Repaired:        return unless some attached handler's muggle_log_handler_should_write(level) *)
+  Definition prefilter (lg : logger) (level : Z) : bool :=
+    if fixed then existsb (fun h => should_write h level) (lg_handlers lg)
+    else negb (lg_lowest lg >? level).
+
+  (* muggle_sync_logger_log *)
   Definition sync_log (lg : logger) (level : Z) (id : nat) (text : list byte) : list emission :=
-    if lg_lowest lg >? level then []
+    if negb (prefilter lg level) then []
     else logger_write lg {| m_level := level; m_id := id; m_payload := payload_of limit text |}.
 
   (* muggle_async_logger_log followed (later) by the writer thread's muggle_logger_write, when
@@ -149,14 +159,61 @@ Section WithFormat.
      crashes (vsnprintf into a NULL payload in the code as first found). *)
   Definition async_log_seq (lg : logger) (level : Z) (id : nat) (text : list byte)
              (msg_ok pay_ok : bool) : option (list emission) :=
-    if lg_lowest lg >? level then Some []
+    if negb (prefilter lg level) then Some []
     else if negb msg_ok then Some []
     else if negb pay_ok then (if fixed then Some [] else None)
     else Some (logger_write lg {| m_level := level; m_id := id; m_payload := payload_of limit text |}).
+  (* The async logger with an explicit queue (sequential view with the writer thread stopped and
+     released by the harness): the producer applies the early-out at CALL time, the writer thread
+     tests each handler's level when it PROCESSES the message.
+       AOLog hold ...  a call; with hold = true and handler 0 accepting it, the writer thread
+                       stops inside handler 0's write of this message
+       AOSet i lv      muggle_log_handler_set_level
+       AORelease       the writer thread goes on: the remaining handlers of the held message,
+                       then everything queued meanwhile, with the levels as they are now *)
+  Definition aseq_step (s : aseq) (o : aop) : aseq * list emission :=
+    let lg := aq_lg s in
+    match o with
+    | AOSet i lv => ({| aq_lg := set_level lg i lv; aq_held := aq_held s; aq_pending := aq_pending s |}, [])
+    | AORelease =>
+      match aq_held s with
+      | None => (s, [])
+      | Some m0 =>
+        ({| aq_lg := lg; aq_held := None; aq_pending := [] |},
+         logger_write_from 1 (tl (lg_handlers lg)) m0 ++ flat_map (logger_write lg) (aq_pending s))
+      end
+    | AOLog hold level id text =>
+      if negb (prefilter lg level) then (s, [])
+      else
+        let m := {| m_level := level; m_id := id; m_payload := payload_of limit text |} in
+        match aq_held s with
+        | Some _ => ({| aq_lg := lg; aq_held := aq_held s; aq_pending := aq_pending s ++ [m] |}, [])
+        | None =>
+          match lg_handlers lg with
+          | h0 :: _ =>
+            if hold && should_write h0 level then
+              ({| aq_lg := lg; aq_held := Some m; aq_pending := [] |}, [handler_emit 0 h0 m])
+            else (s, logger_write lg m)
+          | [] => (s, logger_write lg m)
+          end
+        end
+    end.
 End WithFormat.
 
 (* ------------------------------------------------------------------ *)
 (* 2. sync logger under N threads                                      *)
+
+(* In the concurrent scenarios the handler levels do not change, so the early-out "no attached
+   handler accepts the level" is a fixed threshold: the minimum of the handler levels
+   (C16/ProofsSeq.v: prefilter_static).  sc_lowest / as_lowest below are that threshold. *)
+Fixpoint min_level (hs : list handler) : option Z :=
+  match hs with
+  | [] => None
+  | h :: r => match min_level r with
+              | None => Some (h_level h)
+              | Some m => Some (if h_level h <? m then h_level h else m)
+              end
+  end.
 
 (* a scenario: thread t's k-th call has level [sc_level t k]; every thread makes sc_msgs calls *)
 Record scen := { sc_n : nat; sc_msgs : nat; sc_level : nat -> nat -> Z;
